@@ -212,12 +212,19 @@ def strict_lookahead(ctx, prog):
         return
     ctx.visit(f)
     sites = []
+    starts = []
     for i, t in f.calls():
         if callee_of(t).endswith("::next"):
             src = sy.origin(strip(sy.operand(t["args"][0])))
-            txt = canon(src)
-            if "RangeFrom" in txt and "index" in txt:
-                sites.append((i, t))
+            while src[0] == "call" and src[2] and src[1].split("::")[-1] in ("into_iter", "iter", "copied", "cloned"):
+                src = strip(src[2][0])
+            # a look-ahead iterates a re-slice `bytes[X..]` of the input parameter
+            if src[0] == "call" and src[1].split("::")[-1] == "index" and len(src[2]) == 2:
+                rg = strip(src[2][1])
+                base_root = fpath(src[2][0])[0]
+                if rg[0] == "agg" and rg[1].endswith("RangeFrom::RangeFrom") and base_root[0] == "param":
+                    sites.append((i, t))
+                    starts.append(strip(rg[2][0]))
     ok = len(sites) == 1
     why = "%d look-ahead sites" % len(sites)
     if ok:
@@ -237,4 +244,11 @@ def strict_lookahead(ctx, prog):
             bad.append(G.show_atom(G.atoms([c])[0]))
         ok = seen_has_char and not bad
         why = "look-ahead guarded by !has_char%s" % ("" if not bad else " AND extra condition(s): %s" % "; ".join(bad))
+        # the look-ahead position is the consumed-bytes counter (incremented once per item on every iteration path)
+        st = starts[0]
+        if st[0] == "local":
+            ok2, w2 = panic.counter_counts_every_item(f, sy, st[1])
+        else:
+            ok2, w2 = False, "look-ahead position %s is not a counter" % show(st)
+        ctx.ob("SA-GUARD", "strict parser: the look-ahead reads the byte at the number of consumed input bytes", ok2, w2, f.loc(t["sp"]))
     ctx.ob("SA-GUARD", "strict parser: the look-ahead byte is re-fetched exactly when the bounded iterator ran dry (no other condition)", ok, why, f.loc(sites[0][1]["sp"]) if sites else f.loc())
